@@ -208,7 +208,7 @@ Proof.
     { intros i t. subst content. cbv beta. apply cwfb_el; [reflexivity| |].
       - rewrite forallb_app, opt_attr_ok by reflexivity. reflexivity.
       - cbn [forallb]. destruct (t_content t) as [l|o v]; [now rewrite label_el_ok|].
-        unfold tree_view. now rewrite (wfb_cwfb _ (tv_wfb o v _ _ _ _ _ _ _)). }
+        unfold tree_view. now rewrite (wfb_cwfb _ (tv_wfb o v _ _ _ _ _ _ _ _)). }
     assert (Hbg : forall attrs, forallb attr_ok attrs = true -> cwfb (El s_div [] attrs (tab_nodes button 0%Z tabs)) = true).
     { intros attrs Ha. apply cwfb_el; [reflexivity|exact Ha|now apply tab_nodes_ok]. }
     assert (Hcg : forall attrs, forallb attr_ok attrs = true -> cwfb (El s_div [] attrs (tab_nodes content 0%Z tabs)) = true).
